@@ -228,6 +228,20 @@ def stepLine (line : String) : String :=
       let out := RK.splitStep ops (polyRhs n terms) mm t y h (T.drift.map (tabRat T.K)) (T.kick.map (tabRat T.K))
       s!"{showRats out.1} {showRat out.2}"
     | _, _, _, _, _, _, _ => bad
+  -- ctrl <adaptiveOrImplicit 0/1> <implicit 0/1> <h> <ts:redo:ok;...> : accept/retry logic, bit exact
+  | ["ctrl", ai, im, h, atts] =>
+    let parseA (s : String) : Option (Controller.Attempt Float) :=
+      match s.splitOn ":" with
+      | [ts, r, ok] => (parseFloatBits? ts).map (fun ts => { ts := ts, redo := r == "1", newtonOk := ok == "1" })
+      | _ => none
+    match parseFloatBits? h, parseList? parseA (atts.replace ";" ",") with
+    | some h, some l =>
+      let arr := l.toArray
+      let att : Controller.Attempts Float := fun k _ => arr.getD k { ts := 0.0 / 0.0, redo := true, newtonOk := false }
+      match Controller.call (ai == "1") (im == "1") (0.8 : Float) h att 64 with
+      | .ok newDt dT tr => s!"ok {showFloatBits newDt} {showFloatBits dT} {showList showFloatBits tr}"
+      | .raise tr => s!"raise {showList showFloatBits tr}"
+    | _, _ => bad
   -- counters c1,c0,ju1,jf9:1,r : the counter model
   | ["counters", ops] =>
     let parse (t : String) : Option Counters.Op :=
